@@ -11,6 +11,7 @@ RULE = ("(1) all pairs and (thorough: all, quick: sampled) triples of a 78-item 
         "(3) string literals over arbitrary Unicode with every escape form: token fragment and evaluated value vs the "
         "decoded source text; (4) generated programs under random layouts: same token sequence and same parse tree as "
         "the canonical single-space layout. distinct = distinct source texts; non-trivial = >= 2 tokens.")
+RULE += (" " + 'Pairs are also judged in 9 contexts (after a leading line, after non-ASCII comments and strings on the same and earlier lines, after a multi-line string, after tabs, before a comment that ends the text without a newline).')
 
 KEYWORDS = ["let", "import", "include", "as", "func", "select", "map", "reduce", "filter", "module", "mod", "out",
             "constraint", "convert", "assert", "fail", "TRACE", "NULL", "in", "is", "not", "true", "false", "self", "env"]
